@@ -247,6 +247,8 @@ class Engine:
         k = e.get('kind')
         if k == 'CXXBoolLiteralExpr':
             return bool(e.get('value'))
+        if k == 'DeclRefExpr' and ('b', e.get('referencedDecl', {}).get('id')) in st:
+            return st[('b', e['referencedDecl']['id'])]
         if k == 'CXXMemberCallExpr' and tu.sd(e).get('q', '').split('::')[-1] == 'empty' and 'basic_string' in tu.sd(e).get('q', ''):
             obj = tu.call_parts(e)[1]
             d = tu.ref_decl(obj) if obj is not None else None
@@ -583,6 +585,11 @@ class Engine:
             return self.assume(tu.kids(e)[0], not t, st, depth + 1)
         if k == 'DeclRefExpr':
             v0, _ = self.decl_of(e)
+            if v0 is not None and e.get('type', {}).get('qualType', '').replace('const ', '') == 'bool' and \
+                    e.get('referencedDecl', {}).get('kind') == 'VarDecl':
+                st = dict(st)
+                st[('b', v0)] = bool(t)        # a bool local that was just tested
+                return st
             if v0 is not None and ('null', v0) in st and t:
                 st = dict(st)
                 st.pop(('null', v0), None)
@@ -1018,6 +1025,24 @@ class Engine:
                     if a is not None and b is not None and ('c', a) in st and ('c', b) in st:
                         eng.need_le(f, st, a, b, n, 'std::string::%s(first, last)' % tu.sd(n).get('q', '').split('::')[-1])
                 return [fz(st)]
+            if k == 'BinaryOperator' and n.get('opcode') == '=' and \
+                    tu.kids(n)[0].get('type', {}).get('qualType', '') == 'bool' and tu.strip(tu.kids(n)[0], casts=True).get('kind') == 'DeclRefExpr' \
+                    and tu.strip(tu.kids(n)[0], casts=True).get('referencedDecl', {}).get('kind') == 'VarDecl':
+                # a bool local used as a loop flag: false -> true (not reset earlier in this iteration) is a step of the progress measure
+                bv_ = tu.strip(tu.kids(n)[0], casts=True)['referencedDecl']['id']
+                rv_ = eng.ev(tu.kids(n)[1], st)
+                was_ = st.get(('b', bv_))
+                if isinstance(rv_, bool):
+                    if rv_ and was_ is False and bv_ not in st.get('$Fz', ()):
+                        st['$F'] = 1
+                    if not rv_:
+                        st['$Fz'] = tuple(sorted(set(st.get('$Fz', ())) | {bv_}))
+                    st[('b', bv_)] = rv_
+                else:
+                    st.pop(('b', bv_), None)
+                    st['$Fz'] = tuple(sorted(set(st.get('$Fz', ())) | {bv_}))
+                st['$vals'] = ()
+                return [fz(st)]
             if k == 'BinaryOperator' and n.get('opcode') == '=':
                 ks = tu.kids(n)
                 v, nm = eng.decl_of(ks[0])
@@ -1101,6 +1126,16 @@ class Engine:
                         if val is not None:
                             st[('n', vd['id'])] = val
                 return [fz(st)]
+            if k == 'CXXMemberCallExpr':
+                # a local container used as the stack of open items: pop shrinks it, push grows it (net change since the loop head)
+                mq_ = tu.sd(n).get('q', '').split('::')[-1]
+                ob_ = tu.call_parts(n)[1]
+                od_ = tu.nodes.get(tu.ref_decl(ob_)) if ob_ is not None else None
+                if mq_ in ('pop_back', 'pop', 'pop_front', 'push_back', 'emplace_back', 'push', 'emplace', 'push_front', 'emplace_front') and \
+                        od_ is not None and od_.get('kind') == 'VarDecl' and od_.get('storageClass') != 'static' and \
+                        re.search(r'deque|vector|stack|list', od_.get('type', {}).get('qualType', '')):
+                    st['$S'] = max(-3, min(3, st.get('$S', 0) + (-1 if mq_.startswith('pop') else 1)))
+                    return [fz(st)]
             if k in ('CallExpr', 'CXXMemberCallExpr', 'CXXOperatorCallExpr'):
                 return eng.do_call(f, n, st, moved)
             if k in ('CXXConstructExpr', 'CXXTemporaryObjectExpr'):
@@ -1159,11 +1194,17 @@ class Engine:
                 res = []
                 for o in outs:
                     st = dict(o)
-                    if (blk.id, succ) in backs and succ not in st['$P']:
+                    if (blk.id, succ) in backs and succ not in st['$P'] and (st.get('$S', 0) < 0 or (st.get('$S', 0) == 0 and st.get('$F'))):
+                        pass        # no input consumed, but a local stack of open items shrank (nothing pushed), or - depth unchanged - a
+                        #             bool flag that was false went true: (input left, depth, flag) decreases lexicographically
+                    elif (blk.id, succ) in backs and succ not in st['$P']:
                         eng.finding('R-C16-2', f, 'no-progress-loop',
                                     'a loop iteration can reach its back edge without consuming any input (possible hang)',
                                     tu.node(g.blocks[succ].term) if g.blocks[succ].term else None)
                     st['$P'] = st['$P'] - {succ}
+                    st.pop('$S', None)
+                    st.pop('$F', None)
+                    st.pop('$Fz', None)
                     res.append(fz(st))
                 outs = res
             return outs
@@ -2453,6 +2494,17 @@ def check_whitespace_tolerance(ctx, tu, eng):
         if here:
             tol = [x for x in here if x[2]]
             bad = [x for x in here if not x[2]]
+            if mode == 'some' and not tol:
+                # the site that needs the skipping may have moved into a helper this function calls (e.g. the tag head read by its own function)
+                callees = set()
+                for fn_ in tu.functions.values():
+                    if fn_['q'].split('::')[-1] == fname and tu.fn_file(fn_) == XML_FILE and tu.body(fn_) is not None:
+                        for y in tu.walk(tu.body(fn_)):
+                            if y.get('kind') in ('CallExpr', 'CXXMemberCallExpr'):
+                                cf_ = tu.callee_fn(y)
+                                if cf_ is not None and tu.fn_file(cf_) == XML_FILE:
+                                    callees.add(cf_['q'].split('::')[-1])
+                tol = [x for x in sites.get((d, kind), []) if x[0] in callees and x[2]]
             if (mode == 'all' and not bad) or (mode == 'some' and tol):
                 ctx.ok(R, inst, '%d site(s), whitespace excluded at %s' % (len(here), 'all of them' if mode == 'all' else 'at least one'), tu.loc(here[0][1]))
             else:
